@@ -95,6 +95,9 @@ pub fn names() -> Vec<Vec<u8>> {
         b"..csv".to_vec(),
         b"a.csv.swp".to_vec(),
         b"sp ace.csv".to_vec(),
+        // names that end in the letters of an extension without the dot
+        b"acsv".to_vec(),
+        b"csv".to_vec(),
         long,
     ]
 }
@@ -179,17 +182,16 @@ pub fn cases(thorough: bool) -> Vec<WCase> {
     out
 }
 
+/// the target's input as zinoma itself resolves it from a declaration: absolute paths, extensions written
+/// without their leading dot (the normalisation is part of what decides which events are relevant)
 fn make_input(root: &Path, group: &[(&'static str, Option<Vec<&'static str>>)]) -> Resources {
-    Resources {
-        files: group
-            .iter()
-            .map(|(sub, exts)| FilesResource {
-                paths: vec![if sub.is_empty() { root.to_path_buf().into() } else { root.join(sub).into() }],
-                extensions: exts.as_ref().map(|es| es.iter().map(|e| e.to_string()).collect()),
-            })
-            .collect(),
-        cmds: vec![],
+    let mut files = vec![];
+    for (sub, exts) in group {
+        let path = if sub.is_empty() { root.to_path_buf() } else { root.join(sub) };
+        let raw: Option<Vec<String>> = exts.as_ref().map(|es| es.iter().map(|e| e.trim_start_matches('.').to_string()).collect());
+        files.extend(crate::seq_fs::resolve_files(root, &[path.to_string_lossy().to_string()], &raw));
     }
+    Resources { files, cmds: vec![] }
 }
 
 const SENTINELS: [&str; 3] = ["zzsentinel.csv", "d/zzsentinel.csv", "top/zzsentinel.txt"];
